@@ -132,6 +132,43 @@ class Matrix(Ext):
             raise Unsupported("metadata matrix subscript")
         return MXStub("%s[..]" % self.label, origin=("select", self, key[0], key[1]))
 
+    def sym_getattr(self, eng, name):
+        if name in ("full", "toarray"):
+            # the numeric matrix as a NumPy array: same elements, NumPy's (row-major) reshape instead of CasADi's (column-major)
+            return stub(lambda eng, *a: NumMatrix(self))
+        raise Unsupported("getattr %s on Matrix" % name)
+
+
+class NumMatrix(Ext):
+    """DM.full(): selections of it are NumPy vectors; .reshape follows NumPy's element order"""
+    type_names = ("ndarray",)
+
+    def __init__(self, matrix):
+        self.matrix = matrix
+
+    def sym_getitem(self, eng, key):
+        if not (isinstance(key, tuple) and len(key) == 2):
+            raise Unsupported("metadata array subscript")
+        return NumVector(MXStub("%s[..]" % self.matrix.label, origin=("select", self.matrix, key[0], key[1])))
+
+
+class NumVector(Ext):
+    type_names = ("ndarray",)
+
+    def __init__(self, sel):
+        self.sel = sel
+
+    def sym_getattr(self, eng, name):
+        if name == "reshape":
+            def reshape(eng, *shape, **kw):
+                shp = tuple(eng.iterate(shape[0])) if len(shape) == 1 and not isinstance(shape[0], int) and not ops.is_sym(shape[0]) else tuple(shape)
+                colmajor = kw.get("order", "C") == "F"
+                # a column of the metadata holds a variable's elements column by column: NumPy's default order puts them back
+                # in place only if the variable has a single row or a single column
+                return MXStub("npreshape(%s)" % self.sel.label, shp, origin=("reshape" if colmajor else "reshape-rowmajor", self.sel, shp))
+            return stub(reshape)
+        raise Unsupported("ndarray.%s" % name)
+
 
 class FunctionStub(Ext):
     type_names = ("Function",)
